@@ -346,6 +346,38 @@ pub broadcast proof fn lemma_qsem_link(q: u8, op: u8, h: Tree, f: Tree, g: Tree,
 }
 pub broadcast group quant2_lemmas { lemma_qsem2_upd, lemma_qsem2_vs_mk, lemma_qsem2_vs_leaf, lemma_qsem2_mk_f, lemma_qsem2_mk_g, lemma_qsem2_mk_fg,
     lemma_popped2, lemma_qsem2_xor_above, lemma_qsem_xor_above, lemma_qsem2_comm, lemma_qsem_link }
+// ---------- de Morgan dualisation of apply-quantify (C04): the table used by `apply_quant_dispatch` ----------
+pub open spec fn is_dual(q1: u8, q2: u8) -> bool { (q1 == O_AND && q2 == O_OR) || (q1 == O_OR && q2 == O_AND) }
+/// `not Q1 v. (f1 op1 g1) == Q2 v. (f2 op2 g2)` when Q1/Q2 are dual and the matrices are pointwise complementary
+pub broadcast proof fn lemma_qsem2_dual(q1: u8, op1: u8, f1: Tree, g1: Tree, q2: u8, op2: u8, f2: Tree, g2: Tree, vs: Tree, env: Env)
+    requires is_dual(q1, q2), forall|e: Env| op_sem(op1, #[trigger] sem(f1, e), sem(g1, e)) == !op_sem(op2, sem(f2, e), sem(g2, e)),
+    ensures #[trigger] qsem2(q1, op1, f1, g1, vs, env) == !#[trigger] qsem2(q2, op2, f2, g2, vs, env),
+    decreases vs,
+{
+    match vs {
+        Tree::Leaf(_) => {}
+        Tree::Inner(l, a, _) => {
+            lemma_qsem2_dual(q1, op1, f1, g1, q2, op2, f2, g2, *a, upd(env, l as int, true));
+            lemma_qsem2_dual(q1, op1, f1, g1, q2, op2, f2, g2, *a, upd(env, l as int, false));
+        }
+    }
+}
+/// the quantified matrix may be replaced by a pointwise equal one
+pub broadcast proof fn lemma_qsem2_cong(q: u8, op1: u8, f1: Tree, g1: Tree, op2: u8, f2: Tree, g2: Tree, vs: Tree, env: Env)
+    requires forall|e: Env| op_sem(op1, #[trigger] sem(f1, e), sem(g1, e)) == op_sem(op2, sem(f2, e), sem(g2, e)),
+    ensures #[trigger] qsem2(q, op1, f1, g1, vs, env) == #[trigger] qsem2(q, op2, f2, g2, vs, env),
+    decreases vs,
+{
+    match vs {
+        Tree::Leaf(_) => {}
+        Tree::Inner(l, a, _) => {
+            lemma_qsem2_cong(q, op1, f1, g1, op2, f2, g2, *a, upd(env, l as int, true));
+            lemma_qsem2_cong(q, op1, f1, g1, op2, f2, g2, *a, upd(env, l as int, false));
+        }
+    }
+}
+pub broadcast group dual_lemmas { lemma_qsem2_dual, lemma_qsem2_cong }
+
 // ---------- substitution (C04) ----------
 /// environment in which every level `i < s.len()` takes the value of its replacement function (simultaneous substitution)
 pub open spec fn senv(s: Seq<Tree>, env: Env) -> Env { |i: int| if 0 <= i < s.len() { sem(s[i], env) } else { env(i) } }
@@ -1537,12 +1569,12 @@ mod apply_rec_q {
 use super::*;
 use super::apply_rec::*;
 broadcast use {ce_core, ce_tree, cpop_lemmas, quant_lemmas, quant2_lemmas};
-//@fn file=crates/oxidd-rules-bdd/src/complement_edge/apply_rec.rs path=fn:quant nodecr expect=R5:1 props=C04,C06 cases=Q:BCDDOp::Forall~as~u8,BCDDOp::Exists~as~u8,BCDDOp::Unique~as~u8
+//@fn file=crates/oxidd-rules-bdd/src/complement_edge/apply_rec.rs path=fn:quant nodecr expect=R5:1 props=C04,C06 vis=pub cases=Q:BCDDOp::Forall~as~u8,BCDDOp::Exists~as~u8,BCDDOp::Unique~as~u8
 //@spec
     requires is_qop(Q), edge_ok::<M::Edge>(), okc(f.cv(), manager.num_levels_spec()), okc(vars.cv(), manager.num_levels_spec()),
     ensures res is Ok ==> quant_post(qcode(Q), f.cv(), vars.cv(), manager.num_levels_spec(), res->Ok_0.cv()),
 //@end
-//@fn file=crates/oxidd-rules-bdd/src/complement_edge/apply_rec.rs path=fn:apply_quant nodecr expect=R5:1,R12:1 props=C04,C06 cases=Q:BCDDOp::Forall~as~u8,BCDDOp::Exists~as~u8,BCDDOp::Unique~as~u8
+//@fn file=crates/oxidd-rules-bdd/src/complement_edge/apply_rec.rs path=fn:apply_quant nodecr expect=R5:1,R12:1 props=C04,C06 vis=pub cases=Q:BCDDOp::Forall~as~u8,BCDDOp::Exists~as~u8,BCDDOp::Unique~as~u8
 //@spec
     requires is_aq(Q, OP), edge_ok::<M::Edge>(), okc(f.cv(), manager.num_levels_spec()), okc(g.cv(), manager.num_levels_spec()), okc(vars.cv(), manager.num_levels_spec()),
     ensures res is Ok ==> apply_quant_post(qcode(Q), opcode(OP), f.cv(), g.cv(), vars.cv(), manager.num_levels_spec(), res->Ok_0.cv()),
@@ -1572,6 +1604,48 @@ where M: Manager<EdgeTag = EdgeTag, Terminal = BCDDTerminal> + HasApplyCache<M, 
     ensures res is Ok ==> quant_post(O_XOR, root.cv(), vars.cv(), manager.num_levels_spec(), res->Ok_0.cv()),
 //@end
 } // mod apply_rec_q
+
+mod apply_rec_d {
+use super::*;
+use super::apply_rec::*;
+use super::apply_rec_q::*;
+broadcast use {ce_core, ce_tree, dual_lemmas};
+//@fn file=crates/oxidd-rules-bdd/src/complement_edge/apply_rec.rs path=fn:apply_quant_dispatch expect=R12:1 props=C04 vis=pub "selfcall=const OA: u8>exec const OA: u8,const OX: u8>exec const OX: u8"
+//@spec
+    requires (Q == BCDDOp::Forall as u8 && QN == BCDDOp::Exists as u8) || (Q == BCDDOp::Exists as u8 && QN == BCDDOp::Forall as u8),
+        edge_ok::<M::Edge>(), okc(f.cv(), manager.num_levels_spec()), okc(g.cv(), manager.num_levels_spec()), okc(vars.cv(), manager.num_levels_spec()),
+    ensures res is Ok ==> apply_quant_post(qcode(Q), bo_code(op), f.cv(), g.cv(), vars.cv(), manager.num_levels_spec(), res->Ok_0.cv()),
+//@end
+//@fn file=crates/oxidd-rules-bdd/src/complement_edge/apply_rec.rs path=fn:apply_quant_unique_dispatch props=C04 vis=pub "selfcall=const Q: u8>exec const Q: u8,const OA: u8>exec const OA: u8,const OX: u8>exec const OX: u8,const ONA: u8>exec const ONA: u8"
+//@spec
+    requires edge_ok::<M::Edge>(), okc(f.cv(), manager.num_levels_spec()), okc(g.cv(), manager.num_levels_spec()), okc(vars.cv(), manager.num_levels_spec()),
+    ensures res is Ok ==> apply_quant_post(O_XOR, bo_code(op), f.cv(), g.cv(), vars.cv(), manager.num_levels_spec(), res->Ok_0.cv()),
+//@end
+//@fn file=crates/oxidd-rules-bdd/src/complement_edge/apply_rec.rs path=impl:BooleanFunctionQuant~for~BCDDFunction<F>/fn:apply_forall_edge props=C04
+//@header
+fn apply_forall_edge<M>(manager: &M, op: BooleanOperator, lhs: &M::Edge, rhs: &M::Edge, vars: &M::Edge) -> (res: AllocResult<M::Edge>)
+where M: Manager<EdgeTag = EdgeTag, Terminal = BCDDTerminal> + HasApplyCache<M, BCDDOp>, M::InnerNode: HasLevel,
+//@spec
+    requires edge_ok::<M::Edge>(), okc(lhs.cv(), manager.num_levels_spec()), okc(rhs.cv(), manager.num_levels_spec()), okc(vars.cv(), manager.num_levels_spec()),
+    ensures res is Ok ==> apply_quant_post(O_AND, bo_code(op), lhs.cv(), rhs.cv(), vars.cv(), manager.num_levels_spec(), res->Ok_0.cv()),
+//@end
+//@fn file=crates/oxidd-rules-bdd/src/complement_edge/apply_rec.rs path=impl:BooleanFunctionQuant~for~BCDDFunction<F>/fn:apply_exists_edge props=C04
+//@header
+fn apply_exists_edge<M>(manager: &M, op: BooleanOperator, lhs: &M::Edge, rhs: &M::Edge, vars: &M::Edge) -> (res: AllocResult<M::Edge>)
+where M: Manager<EdgeTag = EdgeTag, Terminal = BCDDTerminal> + HasApplyCache<M, BCDDOp>, M::InnerNode: HasLevel,
+//@spec
+    requires edge_ok::<M::Edge>(), okc(lhs.cv(), manager.num_levels_spec()), okc(rhs.cv(), manager.num_levels_spec()), okc(vars.cv(), manager.num_levels_spec()),
+    ensures res is Ok ==> apply_quant_post(O_OR, bo_code(op), lhs.cv(), rhs.cv(), vars.cv(), manager.num_levels_spec(), res->Ok_0.cv()),
+//@end
+//@fn file=crates/oxidd-rules-bdd/src/complement_edge/apply_rec.rs path=impl:BooleanFunctionQuant~for~BCDDFunction<F>/fn:apply_unique_edge props=C04
+//@header
+fn apply_unique_edge<M>(manager: &M, op: BooleanOperator, lhs: &M::Edge, rhs: &M::Edge, vars: &M::Edge) -> (res: AllocResult<M::Edge>)
+where M: Manager<EdgeTag = EdgeTag, Terminal = BCDDTerminal> + HasApplyCache<M, BCDDOp>, M::InnerNode: HasLevel,
+//@spec
+    requires edge_ok::<M::Edge>(), okc(lhs.cv(), manager.num_levels_spec()), okc(rhs.cv(), manager.num_levels_spec()), okc(vars.cv(), manager.num_levels_spec()),
+    ensures res is Ok ==> apply_quant_post(O_XOR, bo_code(op), lhs.cv(), rhs.cv(), vars.cv(), manager.num_levels_spec(), res->Ok_0.cv()),
+//@end
+} // mod apply_rec_d
 } // mod complement_edge
 } // verus!
 fn main() {}
